@@ -220,6 +220,13 @@ def run(ctx):
     ok = b2.get("pck") == "pck" and b2.get("field") == "args.variable" and b2.get("use_volfrac") == "args.volfrac"
     ctx.check(ok and opts.get("volfrac", {}).get("action") == "store_true", f"{P}.WIRING", cli.site,
               "--variable and --volfrac reach volume_integral", f"volume_integral is called with {b2}", key="options")
+    # the covering mask is expanded by block replication (np.repeat along every axis): same rule as C10.EXPAND
+    ex = prog.func("amr_kitchen/utils.py", "expand_array3d", P)
+    r = [norm(n.value) for n in walk_no_nested(ex.node) if isinstance(n, ast.Return)]
+    ctx.check(r == ["np.repeat(np.repeat(np.repeat(arr, factor, axis=0), factor, axis=1), factor, axis=2)"], f"{P}.EXPAND",
+              ex.site, "expand_array3d repeats every axis by factor (block replication, values and block edges exact)",
+              f"expand_array3d returns {r}: the occupancy block of a coarse cell must cover exactly `factor` fine cells "
+              f"along every axis (np.repeat); resampling (zoom) moves block edges", semantic=False)
     ctx.assume("box boundaries lie on an even blocking factor (bcast_factor = rez // 2); levels are properly nested")
     ctx.assume("the rest of the occupancy arithmetic ((idx*2)//factors, expand) is decided only as far as the "
                "LEVEL-COH and DIV-ALL rules; the numeric sum is not decided")
